@@ -114,6 +114,14 @@ class RuleContext:
         except AnalysisError as e:
             self.errors.append(str(e))
             return None
+        except RecursionError:
+            raise
+        except Exception as e:  # a crash of one sub-rule is "no verdict" for it, not a verdict
+            import traceback
+
+            tb = traceback.extract_tb(e.__traceback__)[-1]
+            self.errors.append(f"sub-rule {getattr(fn, '__name__', fn)} crashed on an unrecognised shape: {type(e).__name__}: {e} ({tb.filename.split('/')[-1]}:{tb.lineno})")
+            return None
 
     # -- recording ---------------------------------------------------------
     def ok(self, rule: str, where: str, what: str) -> None:
